@@ -1,9 +1,16 @@
-"""Shared helpers for the sidecar contracts."""
+"""Shared helpers for the sidecar contracts: symbolic grid, state, forcing, rng."""
 from __future__ import annotations
+
+from fractions import Fraction
 
 import z3
 
-from pyvc.values import sym_array
+from pyvc import values as V
+from pyvc.interp import ForallP, ModelObject, Obj, UnivFact
+from pyvc.numpy_model import DType
+from pyvc.values import Arr, sym_array
+
+HALF = Fraction(1, 2)
 
 
 def N(cx, name="n"):
@@ -14,3 +21,198 @@ def N(cx, name="n"):
 
 def particle_arrays(n, names, kind="real"):
     return {k: sym_array(k, (n,), kind) for k in names}
+
+
+# ------------------------------------------------------------------ grid
+
+
+def make_grid(cx, with_vertical=False):
+    """A well-formed ROMS Grid object as Grid.__init__ leaves it (its postcondition, see contracts/roms.py)."""
+    i0, j0, imax, jmax = z3.Ints("i0 j0 imax jmax")
+    cx.assume(z3.And(i0 >= 1, j0 >= 1, imax >= 1, jmax >= 1))
+    g = Obj(
+        "ladim.ROMS.Grid",
+        i0=i0,
+        j0=j0,
+        i1=i0 + imax,
+        j1=j0 + jmax,
+        imax=imax,
+        jmax=jmax,
+        xmin=z3.ToReal(i0),
+        xmax=z3.ToReal(i0 + imax - 1),
+        ymin=z3.ToReal(j0),
+        ymax=z3.ToReal(j0 + jmax - 1),
+    )
+    for nm, kind in (("H", "real"), ("M", "int"), ("dx", "real"), ("dy", "real"), ("lon", "real"), ("lat", "real")):
+        g.attrs[nm] = sym_array(f"grid_{nm}", (jmax, imax), kind)
+    for nm in ("dx", "dy", "H"):
+        arr = g.attrs[nm]
+        d = arr.decl
+        cx.univ.append(UnivFact(2, (lambda d: lambda j, i: d(j, i) > 0)(d), decls=[d]))
+    M = g.attrs["M"].decl
+    cx.univ.append(UnivFact(2, lambda j, i: z3.Or(M(j, i) == 0, M(j, i) == 1), decls=[M]))
+    if with_vertical:
+        kmax = z3.Int("kmax")
+        cx.assume(kmax >= 2)
+        g.attrs["N"] = kmax
+        zr = sym_array("grid_z_r", (kmax, jmax, imax), "real")
+        g.attrs["z_r"] = zr
+        d = zr.decl
+        # postcondition of sdepth (C12): strictly increasing in k within each column
+        cx.univ.append(UnivFact(3, lambda k, j, i: z3.Implies(z3.And(k >= 0, k + 1 < kmax), d(k, j, i) < d(k + 1, j, i)), decls=[d]))
+        cx.univ.append(UnivFact(3, lambda k, j, i: z3.Implies(z3.And(k >= 1, k < kmax), d(k - 1, j, i) < d(k, j, i)), decls=[d]))
+    return g
+
+
+def valid_pos(grid, X: Arr, Y: Arr):
+    """forall p: the position lies in the valid region of the loaded grid."""
+    fx, fy = X.fn, Y.fn
+    g = grid.attrs
+    return ForallP(
+        X.shape[0],
+        lambda p: z3.And(g["xmin"] + HALF_R < fx(p), fx(p) < g["xmax"] - HALF_R, g["ymin"] + HALF_R < fy(p), fy(p) < g["ymax"] - HALF_R),
+    )
+
+
+HALF_R = z3.RealVal("1/2")
+
+
+def in_valid(grid, x, y):
+    g = grid.attrs
+    return z3.And(g["xmin"] + HALF_R < x, x < g["xmax"] - HALF_R, g["ymin"] + HALF_R < y, y < g["ymax"] - HALF_R)
+
+
+def cell_index(grid, x, y):
+    """(J, I): the particle's own grid cell (nearest rho point)."""
+    g = grid.attrs
+    return V.s_round(y) - g["j0"], V.s_round(x) - g["i0"]
+
+
+def at_sea(grid, x, y):
+    J, I = cell_index(grid, x, y)
+    return grid.attrs["M"].fn(J, I) > 0
+
+
+# ------------------------------------------------------------------ state
+
+MANDATORY = dict(pid="int", X="real", Y="real", Z="real", active="bool", alive="bool")
+
+
+def make_state(cx, n, extra_instance=(), extra_particle=(), npid=None, prefix="st_"):
+    """A well-formed State with n live instances (class invariant of State, contracts/state.py)."""
+    variables = {}
+    dtypes = {}
+    for k, kind in MANDATORY.items():
+        variables[k] = sym_array(prefix + k, (n,), kind)
+        dtypes[k] = DType(kind)
+    for k, kind in extra_instance:
+        variables[k] = sym_array(prefix + k, (n,), kind)
+        dtypes[k] = DType(kind)
+    npid = npid if npid is not None else z3.Int(prefix + "npid")
+    for k, kind in extra_particle:
+        variables[k] = sym_array(prefix + k, (npid,), kind)
+        dtypes[k] = DType(kind)
+    st = Obj(
+        "ladim.state.State",
+        variables=variables,
+        dtypes=dtypes,
+        instance_variables=set(MANDATORY) | {k for k, _ in extra_instance},
+        particle_variables={k for k, _ in extra_particle},
+        default_values=dict(alive=True, active=True),
+        npid=npid,
+        modules=None,
+    )
+    return st
+
+
+def state_wf(cx, st):
+    """Class invariant of State: pid strictly increasing, k <= pid[k] < npid."""
+    pid = st.attrs["variables"]["pid"]
+    n = pid.shape[0]
+    f = pid.fn
+    npid = st.attrs["npid"]
+    cx.assume(V.to_z3(n) >= 0)
+    cx.assume(V.to_z3(npid) >= V.to_z3(n))
+    return [
+        ForallP(n, lambda k: z3.And(f(k) >= k, f(k) < npid)),
+        ForallP(n, lambda k: z3.Implies(k + 1 < V.to_z3(n), f(k) < f(k + 1))),
+        ForallP(n, lambda k: z3.Implies(k >= 1, f(k - 1) < f(k))),
+    ]
+
+
+# ------------------------------------------------------------------ forcing (abstract)
+
+velU = z3.Function("velU", z3.RealSort(), z3.RealSort(), z3.RealSort(), z3.RealSort(), z3.RealSort())
+velV = z3.Function("velV", z3.RealSort(), z3.RealSort(), z3.RealSort(), z3.RealSort(), z3.RealSort())
+
+
+class AbstractForce(ModelObject):
+    """The forcing as the tracker sees it: an uninterpreted velocity field
+    vel(x, y, z, fractional_step); C02/C03 say what it equals.  The precondition
+    is the C17 chain: every sampled position lies in the clipped forcing domain
+    and the cached level arrays are aligned with the particle arrays."""
+
+    def __init__(self, grid, nK, W=None):
+        self.grid = grid
+        self.nK = nK  # ghost: length of the cached K/A (alignment, C14)
+        self.variables = {"w": W} if W is not None else {}
+        self.calls = []
+
+    def pv_getattr(self, cx, name):
+        if name == "velocity":
+            return self._velocity
+        if name == "variables":
+            return self.variables
+        raise V.PyRaise("AttributeError", (name,))
+
+    @property
+    def _velocity(self):
+        me = self
+
+        def velocity(interp, X, Y, Z, fractional_step=0, method="bilinear"):
+            cx = interp.cx
+            g = me.grid.attrs
+            lo_x, hi_x = g["xmin"] + z3.RealVal("1/100"), g["xmax"] - z3.RealVal("1/100")
+            lo_y, hi_y = g["ymin"] + z3.RealVal("1/100"), g["ymax"] - z3.RealVal("1/100")
+            fx, fy, fz = X.fn, Y.fn, Z.fn
+            n = X.shape[0]
+            cx.oblige("precondition of forcing.velocity: len(Y) == len(X)", V.s_cmp("==", Y.shape[0], n), kind="pre")
+            cx.oblige("precondition of forcing.velocity: len(Z) == len(X)", V.s_cmp("==", Z.shape[0], n), kind="pre")
+            cx.oblige("precondition of forcing.velocity: cached level arrays K, A aligned with the particle arrays (len(K) == len(X))", V.s_cmp("==", me.nK, n), kind="pre")
+            cx.oblige_item(
+                "precondition of forcing.velocity: sampled position inside the clipped forcing domain [xmin+.01, xmax-.01] x [ymin+.01, ymax-.01]",
+                ForallP(n, lambda p: z3.And(lo_x <= fx(p), fx(p) <= hi_x, lo_y <= fy(p), fy(p) <= hi_y)),
+                kind="pre",
+            )
+            fr = V.to_real(fractional_step)
+            me.calls.append(fr)
+            U = Arr((n,), lambda p: velU(fx(p), fy(p), fz(p), fr), "real")
+            Vv = Arr((n,), lambda p: velV(fx(p), fy(p), fz(p), fr), "real")
+            return (U, Vv)
+
+        velocity._pyvc_model = True
+        return velocity
+
+
+class Rng(ModelObject):
+    """numpy.random.Generator: each normal(size=n) call returns a fresh vector xi_c (assumed i.i.d. N(0,1))."""
+
+    def __init__(self):
+        self.draws = 0
+        self.sizes = []
+
+    def pv_getattr(self, cx, name):
+        if name != "normal":
+            raise V.Unsupported(f"rng.{name}")
+        me = self
+
+        def normal(interp, loc=0, scale=1, size=None):
+            me.draws += 1
+            me.sizes.append(size)
+            return sym_array(f"xi{me.draws}", (size,), "real")
+
+        normal._pyvc_model = True
+        return normal
+
+    def pv_compare(self, cx, actual, label, kind):
+        cx.oblige(f"{label}: number of random draws == {self.draws}", isinstance(actual, Rng) and actual.draws == self.draws, kind=kind)
